@@ -664,4 +664,351 @@ theorem fileCopy_inv (fs : Fs) (hinv : Inv fs) (src dst : Bytes) (fie : Bool) (f
             · exact sysUnlink_inv _ h2 dst
             · exact h2
 
+
+/-! ### rename: moving a subtree keeps the world well-formed -/
+
+theorem renKey_fst_moved (pf pt : CPath) (x : CPath × Entry) (h : pf <+: x.1) :
+    (renKey pf pt x) = (pt ++ x.1.drop pf.length, x.2) := by
+  unfold renKey; rw [if_pos (List.isPrefixOf_iff_prefix.mpr h)]
+
+theorem renKey_not_moved (pf pt : CPath) (x : CPath × Entry) (h : ¬ pf <+: x.1) : renKey pf pt x = x := by
+  unfold renKey; rw [if_neg (fun hh => h (List.isPrefixOf_iff_prefix.mp hh))]
+
+theorem eq_append_drop (pf k : CPath) (h : pf <+: k) : k = pf ++ k.drop pf.length :=
+  (List.prefix_iff_eq_append.mp h).symm
+
+theorem moveTree_wf (fs : Fs) (hwf : WF fs) (pf pt : CPath) (ef : Entry)
+    (hpf : fs.get pf = some ef) (hpfne : pf ≠ []) (hnp : ¬ pf <+: pt)
+    (hleafpt : Leaf fs pt) (hptne : pt ≠ []) (hparent : Present fs pt.dropLast) (hname : ∀ c ∈ pt, IsName c) :
+    WF (fs.moveTree pf pt) := by
+  have hX : WF (fs.del pt) := del_wf fs pt hwf hleafpt
+  -- facts about X = fs.del pt
+  have hx1 : ∀ x ∈ (fs.del pt).ents, ¬ pt <+: x.1 := by
+    intro x hx hp
+    have hx' := del_sub fs pt x hx
+    simp only [Fs.del, List.mem_filter, ne_eq, decide_eq_true_eq] at hx
+    exact hleafpt x hx' ⟨hp, hx.2⟩
+  have hchain : ∀ k, 0 < k → k < pt.length → (pt.take k, Entry.dir) ∈ (fs.del pt).ents := by
+    intro k hk1 hk2
+    have hk3 : k ≤ pt.dropLast.length := by simp; omega
+    have hpre := present_prefix fs hwf pt.dropLast hparent k hk3
+    have htk : pt.dropLast.take k = pt.take k := by
+      rw [List.dropLast_eq_take, List.take_take]; congr 1; omega
+    rw [htk] at hpre
+    have hne : pt.take k ≠ [] := take_ne_nil pt k hk1 hptne
+    rcases hpre with h0 | hg
+    · exact absurd h0 hne
+    · have hm := get_some_mem fs _ .dir hne hg
+      simp only [Fs.del, List.mem_filter, ne_eq, decide_eq_true_eq]
+      refine ⟨hm, ?_⟩
+      intro h
+      have := congrArg List.length h
+      simp [List.length_take] at this
+      omega
+  have hpfmem : (pf, ef) ∈ (fs.del pt).ents := by
+    have hm := get_some_mem fs pf ef hpfne hpf
+    simp only [Fs.del, List.mem_filter, ne_eq, decide_eq_true_eq]
+    exact ⟨hm, fun h => hnp (by rw [h]; exact List.prefix_refl _)⟩
+  rw [show (fs.moveTree pf pt) = ⟨(fs.del pt).ents.map (renKey pf pt)⟩ from rfl]
+  refine ⟨?_, ?_, ?_⟩
+  · -- names
+    intro y hy c hc
+    obtain ⟨x, hx, rfl⟩ := List.mem_map.mp hy
+    by_cases hm : pf <+: x.1
+    · rw [renKey_fst_moved pf pt x hm] at hc
+      simp only [List.mem_append] at hc
+      rcases hc with hc | hc
+      · exact hname c hc
+      · exact hX.names x hx c (List.mem_of_mem_drop hc)
+    · rw [renKey_not_moved pf pt x hm] at hc
+      exact hX.names x hx c hc
+  · -- no key twice
+    unfold NoDupKeys
+    simp only [List.map_map]
+    have hn := hX.nodup
+    unfold NoDupKeys List.Nodup at hn
+    rw [List.pairwise_map] at hn
+    unfold List.Nodup
+    rw [List.pairwise_map]
+    apply List.Pairwise.imp_of_mem _ hn
+    intro x y hx hy hxy heq
+    apply hxy
+    simp only [Function.comp] at heq
+    by_cases hmx : pf <+: x.1
+    · by_cases hmy : pf <+: y.1
+      · rw [renKey_fst_moved pf pt x hmx, renKey_fst_moved pf pt y hmy] at heq
+        simp only at heq
+        have := List.append_cancel_left heq
+        rw [eq_append_drop pf x.1 hmx, eq_append_drop pf y.1 hmy, this]
+      · rw [renKey_fst_moved pf pt x hmx, renKey_not_moved pf pt y hmy] at heq
+        simp only at heq
+        exact absurd ⟨_, heq⟩ (hx1 y hy)
+    · by_cases hmy : pf <+: y.1
+      · rw [renKey_not_moved pf pt x hmx, renKey_fst_moved pf pt y hmy] at heq
+        simp only at heq
+        exact absurd ⟨_, heq.symm⟩ (hx1 x hx)
+      · rw [renKey_not_moved pf pt x hmx, renKey_not_moved pf pt y hmy] at heq
+        exact heq
+  · -- parents
+    intro y hy k hk2 hk1
+    obtain ⟨x, hx, rfl⟩ := List.mem_map.mp hy
+    by_cases hm : pf <+: x.1
+    · rw [renKey_fst_moved pf pt x hm] at hk2 ⊢
+      simp only at hk2 ⊢
+      have hxeq := eq_append_drop pf x.1 hm
+      generalize hr : x.1.drop pf.length = r at hk2 hxeq ⊢
+      by_cases hlt : k < pt.length
+      · -- a proper prefix of pt: the chain of pt's parents, not moved
+        have hmem := hchain k hk1 hlt
+        refine ⟨(pt.take k, .dir), ?_, ?_, rfl⟩
+        · apply List.mem_map.mpr
+          refine ⟨(pt.take k, .dir), hmem, ?_⟩
+          apply renKey_not_moved
+          intro hp
+          exact hnp (List.IsPrefix.trans hp (List.take_prefix k pt))
+        · simp only
+          rw [List.take_append_of_le_length (by omega)]
+      · -- pt itself or below: the image of the corresponding entry below pf
+        have hj : ∃ j, k = pt.length + j := ⟨k - pt.length, by omega⟩
+        obtain ⟨j, rfl⟩ := hj
+        simp only [List.length_append] at hk2
+        have hjr : j < r.length := by omega
+        -- witness in X: the entry with key pf ++ r.take j (pf itself when j = 0)
+        have hw : ∃ w ∈ (fs.del pt).ents, w.1 = pf ++ r.take j ∧ w.2 = .dir := by
+          have hxl : pf.length + j < x.1.length := by rw [hxeq]; simp; omega
+          have hpos : 0 < pf.length + j := by
+            have := List.length_pos_iff.mpr hpfne; omega
+          obtain ⟨w, hw, hw1, hw2⟩ := hX.parents x hx (pf.length + j) hxl hpos
+          refine ⟨w, hw, ?_, hw2⟩
+          rw [hw1, hxeq, List.take_length_add_append]
+        obtain ⟨w, hw, hw1, hw2⟩ := hw
+        refine ⟨renKey pf pt w, List.mem_map.mpr ⟨w, hw, rfl⟩, ?_, ?_⟩
+        · have hmw : pf <+: w.1 := by rw [hw1]; exact List.prefix_append _ _
+          rw [renKey_fst_moved pf pt w hmw]
+          simp only
+          rw [hw1, List.drop_left, List.take_length_add_append]
+        · have hmw : pf <+: w.1 := by rw [hw1]; exact List.prefix_append _ _
+          rw [renKey_fst_moved pf pt w hmw]; exact hw2
+    · rw [renKey_not_moved pf pt x hm] at hk2 ⊢
+      obtain ⟨w, hw, hw1, hw2⟩ := hX.parents x hx k hk2 hk1
+      refine ⟨w, List.mem_map.mpr ⟨w, hw, ?_⟩, hw1, hw2⟩
+      apply renKey_not_moved
+      intro hp
+      apply hm
+      rw [hw1] at hp
+      exact List.IsPrefix.trans hp (List.take_prefix k x.1)
+
+
+theorem leaf_of_none (fs : Fs) (hwf : WF fs) (p : CPath) (hp : p ≠ []) (hn : fs.get p = none) : Leaf fs p := by
+  intro x hx hh
+  obtain ⟨⟨t, ht⟩, hne⟩ := hh
+  have hlen : p.length < x.1.length := by
+    have := congrArg List.length ht
+    simp at this
+    cases t with
+    | nil => simp at ht; exact absurd ht.symm hne
+    | cons a b => simp at this; omega
+  obtain ⟨y, hy, hy1, hy2⟩ := hwf.parents x hx p.length hlen (List.length_pos_iff.mpr hp)
+  have hyp : y.1 = p := by rw [hy1, ← ht]; simp
+  have := get_of_mem fs hwf.nodup p y.2 hp (by rw [← hyp]; exact hy)
+  rw [hn] at this; simp at this
+
+theorem parent_present (fs : Fs) (hwf : WF fs) (p : CPath) (e : Entry) (hp : p ≠ []) (hg : fs.get p = some e) :
+    Present fs p.dropLast := by
+  by_cases h1 : p.length = 1
+  · left
+    have : p.dropLast.length = 0 := by simp [h1]
+    exact List.length_eq_zero_iff.mp this
+  · right
+    have hm := get_some_mem fs p e hp hg
+    have hl : 0 < p.length := List.length_pos_iff.mpr hp
+    obtain ⟨y, hy, hy1, hy2⟩ := hwf.parents (p, e) hm (p.length - 1) (by simp; omega) (by omega)
+    simp only at hy1
+    rw [List.dropLast_eq_take]
+    have hne : p.take (p.length - 1) ≠ [] := take_ne_nil p _ (by omega) hp
+    exact get_of_mem fs hwf.nodup _ .dir hne (by rw [← hy1, ← hy2]; exact hy)
+
+theorem moveTree_inv (fs : Fs) (hinv : Inv fs) (pf pt : CPath) (ef : Entry)
+    (hpf : fs.get pf = some ef) (hpfne : pf ≠ []) (hcw : ¬ pf <+: cwd) (hnp : ¬ pf <+: pt)
+    (hleafpt : Leaf fs pt) (hptne : pt ≠ []) (hparent : Present fs pt.dropLast) (hname : ∀ c ∈ pt, IsName c)
+    (hcwd : pt = cwd → ef = .dir) : Inv (fs.moveTree pf pt) := by
+  have hwfY := moveTree_wf fs hinv.1 pf pt ef hpf hpfne hnp hleafpt hptne hparent hname
+  refine ⟨hwfY, ?_⟩
+  apply get_of_mem _ hwfY.nodup cwd .dir (by decide)
+  rw [show (fs.moveTree pf pt).ents = (fs.del pt).ents.map (renKey pf pt) from rfl]
+  apply List.mem_map.mpr
+  by_cases hpc : pt = cwd
+  · have hed := hcwd hpc
+    subst hed
+    refine ⟨(pf, .dir), ?_, ?_⟩
+    · simp only [Fs.del, List.mem_filter, ne_eq, decide_eq_true_eq]
+      exact ⟨get_some_mem fs pf _ hpfne hpf, fun h => hnp (by rw [h]; exact List.prefix_refl _)⟩
+    · rw [renKey_fst_moved pf pt (pf, .dir) (List.prefix_refl _)]
+      simp [hpc]
+  · refine ⟨(cwd, .dir), ?_, renKey_not_moved pf pt _ hcw⟩
+    simp only [Fs.del, List.mem_filter, ne_eq, decide_eq_true_eq]
+    exact ⟨get_some_mem fs cwd _ (by decide) hinv.2, fun h => hpc h.symm⟩
+
+theorem sysRename_inv (fs : Fs) (hinv : Inv fs) (frm to : Bytes) : Inv (sysRename fs frm to).1 := by
+  unfold sysRename
+  have hokf := resolve_resOk fs hinv frm false
+  cases hrf : resolve fs frm false with
+  | err _ => exact hinv
+  | missing _ _ => exact hinv
+  | found pf ef =>
+    rw [hrf] at hokf
+    simp only
+    by_cases hcwb : pf.isPrefixOf cwd = true
+    · rw [if_pos hcwb]; exact hinv
+    · rw [if_neg hcwb]
+      have hcw : ¬ pf <+: cwd := fun h => hcwb (List.isPrefixOf_iff_prefix.mpr h)
+      have hpfne : pf ≠ [] := by intro h; apply hcw; rw [h]; exact List.nil_prefix
+      have hpf : fs.get pf = some ef := by
+        rcases hokf with ⟨h, _⟩ | h
+        · exact absurd h hpfne
+        · exact h
+      have hokt := resolve_resOk fs hinv to false
+      cases hrt : resolve fs to false with
+      | err _ => exact hinv
+      | missing pa n =>
+        rw [hrt] at hokt
+        simp only
+        by_cases hc : ef = Entry.dir ∧ pf.isPrefixOf (pa ++ [n]) = true
+        · rw [if_pos hc]; exact hinv
+        · rw [if_neg hc]
+          have hnone := resolve_missing_get fs to false pa n hrt
+          have hPne := append_singleton_ne_nil pa n
+          apply moveTree_inv fs hinv pf (pa ++ [n]) ef hpf hpfne hcw
+          · intro hp
+            by_cases hed : ef = .dir
+            · exact hc ⟨hed, List.isPrefixOf_iff_prefix.mpr hp⟩
+            · -- a non-directory cannot be a prefix of a path below a directory
+              have hne : pf ≠ pa ++ [n] := by intro h; rw [h, hnone] at hpf; simp at hpf
+              obtain ⟨t, ht⟩ := hp
+              have hpa : pf <+: pa := by
+                cases ht' : t.reverse with
+                | nil => simp at ht'; subst ht'; simp at ht; exact absurd ht hne
+                | cons a b =>
+                  have : t = b.reverse ++ [a] := by
+                    have := congrArg List.reverse ht'; simpa using this
+                  rw [this, ← List.append_assoc] at ht
+                  have := List.append_inj_left' ht rfl
+                  exact ⟨b.reverse, this⟩
+              have hpre := present_prefix fs hinv.1 pa hokt.1 pf.length (List.IsPrefix.length_le hpa)
+              rw [← List.prefix_iff_eq_take.mp hpa] at hpre
+              rcases hpre with h0 | hg
+              · exact hpfne h0
+              · rw [hpf] at hg; exact hed (Option.some.inj hg)
+          · exact leaf_of_none fs hinv.1 _ hPne hnone
+          · exact hPne
+          · rw [List.dropLast_concat]; exact hokt.1
+          · intro c hc'
+            simp only [List.mem_append, List.mem_singleton] at hc'
+            rcases hc' with hc' | rfl
+            · exact present_names fs hinv.1 pa hokt.1 c hc'
+            · exact hokt.2
+          · intro hpc; rw [hpc, hinv.2] at hnone; simp at hnone
+      | found pt et =>
+        rw [hrt] at hokt
+        simp only
+        by_cases h1 : pt = pf
+        · rw [if_pos h1]; exact hinv
+        · rw [if_neg h1]
+          by_cases h2 : ef = Entry.dir
+          · rw [if_pos h2]
+            by_cases h3 : et ≠ Entry.dir
+            · rw [if_pos h3]; exact hinv
+            · rw [if_neg h3]
+              by_cases h4 : pf.isPrefixOf pt = true
+              · rw [if_pos h4]; exact hinv
+              · rw [if_neg h4]
+                by_cases h5 : fs.children pt ≠ [] ∨ pt = []
+                · rw [if_pos h5]; exact hinv
+                · rw [if_neg h5]
+                  have hptne : pt ≠ [] := fun h => h5 (Or.inr h)
+                  have hgt : fs.get pt = some et := by
+                    rcases hokt with ⟨h, _⟩ | h
+                    · exact absurd h hptne
+                    · exact h
+                  apply moveTree_inv fs hinv pf pt ef hpf hpfne hcw
+                  · exact fun h => h4 (List.isPrefixOf_iff_prefix.mpr h)
+                  · exact leaf_of_no_children fs hinv.1 pt (by
+                      cases hch : fs.children pt with
+                      | nil => rfl
+                      | cons a b => exact absurd (Or.inl (by rw [hch]; simp)) h5)
+                  · exact hptne
+                  · exact parent_present fs hinv.1 pt et hptne hgt
+                  · exact hinv.1.names (pt, et) (get_some_mem fs pt et hptne hgt)
+                  · intro _; exact h2
+          · rw [if_neg h2]
+            by_cases h3 : et = Entry.dir
+            · rw [if_pos h3]; exact hinv
+            · rw [if_neg h3]
+              have hptne : pt ≠ [] := by
+                intro h
+                rcases hokt with ⟨_, hd⟩ | hg
+                · exact h3 hd
+                · subst h; simp [Fs.get] at hg; exact h3 hg.symm
+              have hgt : fs.get pt = some et := by
+                rcases hokt with ⟨h, _⟩ | h
+                · exact absurd h hptne
+                · exact h
+              have hleafpf := leaf_of_nondir fs hinv.1 pf ef hpfne hpf h2
+              apply moveTree_inv fs hinv pf pt ef hpf hpfne hcw
+              · intro hp
+                exact hleafpf (pt, et) (get_some_mem fs pt et hptne hgt) ⟨hp, h1⟩
+              · exact leaf_of_nondir fs hinv.1 pt et hptne hgt h3
+              · exact hptne
+              · exact parent_present fs hinv.1 pt et hptne hgt
+              · exact hinv.1.names (pt, et) (get_some_mem fs pt et hptne hgt)
+              · intro hpc; rw [hpc, hinv.2] at hgt; exact absurd (Option.some.inj hgt).symm h3
+
+theorem fileRename_inv (fs : Fs) (hinv : Inv fs) (frm to : Bytes) (fie : Bool) : Inv (fileRename fs frm to fie).1 := by
+  unfold fileRename
+  cases fie with
+  | false => simp only [Bool.false_eq_true, if_false]; exact sysRename_inv fs hinv frm to
+  | true =>
+    simp only [if_true]
+    by_cases hs : isOk (sysStat fs frm false) = false
+    · rw [if_pos hs]; exact hinv
+    · rw [if_neg hs]
+      have h1 := sysOpen_inv fs hinv to { acc := .rdonly, creat := true, excl := true }
+      cases ho : sysOpen fs to { acc := .rdonly, creat := true, excl := true } with
+      | mk fs1 r =>
+        rw [ho] at h1
+        cases r with
+        | error _ => exact h1
+        | ok fd =>
+          simp only
+          have h2 := sysRename_inv fs1 h1 frm to
+          cases hr : sysRename fs1 frm to with
+          | mk fs2 r2 =>
+            rw [hr] at h2
+            cases r2 with
+            | error _ => exact sysUnlink_inv fs2 h2 to
+            | ok _ => exact h2
+
+/-- every operation keeps the invariant -/
+theorem fsApply_inv (fs : Fs) (hinv : Inv fs) (op : FsOp) : Inv (fsApply fs op) := by
+  cases op with
+  | mkdir p => exact sysMkdir_inv fs hinv p
+  | mkfile p d => exact mkfile_inv fs hinv p d
+  | symlink t p => exact sysSymlink_inv fs hinv t p
+  | create p fault =>
+    simp only [fsApply, dirCreateTop]
+    exact dirCreate_inv _ fs hinv p fault 0
+  | rmdir p r => exact dirUnlink_inv _ r fs p hinv
+  | purge p r => exact dirPurge_inv fs hinv p r
+  | unlink p => exact fileUnlink_inv fs hinv p
+  | rename a b f => exact fileRename_inv fs hinv a b f
+  | copy a b f ft => exact fileCopy_inv fs hinv a b f ft
+  | file p fl sc => exact fileSession_inv fs hinv p fl sc
+
+/-- … hence every history -/
+theorem fsRun_inv : ∀ (ops : List FsOp) (fs : Fs), Inv fs → Inv (fsRun fs ops) := by
+  intro ops
+  induction ops with
+  | nil => intro fs h; exact h
+  | cons op rest ih => intro fs h; exact ih _ (fsApply_inv fs h op)
+
 end Nstd.Path
